@@ -8,7 +8,7 @@ Open Scope N_scope.
      plain  : (cid, rid) the request line of rid was visible in the raw bytes the client wrote on cid
      outs   : per call, the error class returned *)
 Inductive c21case :=
-| C21Hist (hcs : list (bytes * bool)) (calls : list call)
+| C21Hist (cwt : bool) (hcs : list hcfg) (calls : list call)
           (dials : list (N * bytes * bool)) (writes : list (N * N * bool)) (plain : list (N * N)) (outs : list N)
 | C21Port (addr : bytes) (isTLS : bool) (impl : bytes).
 
@@ -25,7 +25,7 @@ Definition out_code (o : outcome) : N :=
   end.
 
 Definition model_dials (tr : list event) : list (N * bytes * bool) :=
-  flat_map (fun e => match e with EDial c a t => [(c, a, t)] | _ => [] end) tr.
+  flat_map (fun e => match e with EDial c a k => [(c, a, kind_tls k)] | _ => [] end) tr.
 Definition model_writes (tr : list event) : list (N * N) :=
   flat_map (fun e => match e with EWrite c r => [(c, r_id r)] | _ => [] end) tr.
 
@@ -43,8 +43,8 @@ Definition fix_maxred (c : call) : call :=
 
 Definition corr_ok (c : c21case) : bool :=
   match c with
-  | C21Hist hcs calls dials writes _ outs =>
-      let '(_, tr, mo) := run (init hcs) (map fix_maxred calls) in
+  | C21Hist cwt hcs calls dials writes _ outs =>
+      let '(_, tr, mo) := run (init cwt hcs) (map fix_maxred calls) in
       list_eqb dial_eqb (model_dials tr) dials
       && list_eqb nn_eqb (model_writes tr) (map (fun w => (fst (fst w), snd (fst w))) writes)
       && list_eqb N.eqb (map out_code mo) outs
@@ -65,9 +65,9 @@ Definition find_dial (cid : N) (dials : list (N * bytes * bool)) : option (bytes
 Definition via_client (r : req) : bool := match r_via r with ViaClient => true | _ => false end.
 
 (* requests submitted to stand-alone HostClient i (directly or through the LBClient) whose scheme does not match IsTLS *)
-Definition mismatching (hcs : list (bytes * bool)) (c : call) : list req :=
+Definition mismatching (hcs : list hcfg) (c : call) : list req :=
   let bad i r := match nth_error hcs i with
-                 | Some (_, tls) => negb (Bool.eqb tls (https_scheme (r_scheme r)))
+                 | Some (_, tls, _) => negb (Bool.eqb tls (https_scheme (r_scheme r)))
                  | None => false end in
   match c with
   | CClient _ _ => []
@@ -77,7 +77,7 @@ Definition mismatching (hcs : list (bytes * bool)) (c : call) : list req :=
 
 Definition prop_ok (c : c21case) : bool :=
   match c with
-  | C21Hist hcs calls dials writes plain _ =>
+  | C21Hist _ hcs calls dials writes plain _ =>
       (* every request seen by a server *)
       forallb (fun w => let '(cid, rid, viaTLS) := w in
         match find_req rid calls, find_dial cid dials with
